@@ -8,6 +8,8 @@ CONSTANTS
   MaxEnv = 2
   ForeignAt = "none"
   RenderFails = FALSE
+  CacheMisses = TRUE
+  VerBumps = TRUE
   FailKinds = {"fnerror1", "fatal2", "reqlabel2"}
 VIEW view
 ACTION_CONSTRAINT Emit
